@@ -28,6 +28,17 @@ PROPS = {
         ],
         "assumptions": ["payload contents are a function of (stream, index), so item sizes and first index determine the future behaviour of a state"],
     },
+    "C14": {
+        "level": "model_checking",
+        "engine": "explore (bounded-exhaustive product)",
+        "technique": "bounded-exhaustive enumeration of the full input/configuration product on the real middleware against a reference predicate (fixed virtual clock)",
+        "claim": "the full product of 17 Authorization header shapes x 5 verifier outcomes x 3 required x 5 granted scope sets x 7 expirations (incl. the exact skew boundary +-1ns) x 2 skews x AllowMissingExpiration x nil/non-nil options x metadata URL is run through RequireBearerToken under a synctest bubble's fixed clock; handler-ran must equal the reference conjunction, TokenInfo identity, status legal for the causes present, challenge contents on 401/403",
+        "note": "values outside the per-dimension alphabets are not covered; where the statement leaves precedence open (scope vs expiry) both statuses are accepted; a tab between scheme and token is treated as undecided",
+        "parts": [
+            {"pkg": "auth", "mode": "plain", "test": "TestVerifC14", "shards": 4},
+        ],
+        "assumptions": ["time.Now is the only clock used by the middleware (true inside the bubble)"],
+    },
 }
 
 # Properties deliberately not claimed (reason shown in MANIFEST.not_applicable).
